@@ -19,6 +19,8 @@ def check(A):
         R.api_rules(A, fl, 'C03')
         R.response_rules(A, fl, 'C03', parts=('reap',))
     R.isolation_rules(A, 'C03')
+    R.jsonp_rule(A, 'C03')
+    R.driver_send_rule(A, 'C03')
     # binary messages leave on the channel kind of the transport that carries them (C01 cache)
     from . import C01
     import copy
